@@ -114,6 +114,7 @@ def classifiers():
         L.append({"name": name, "kind": "classifier", "factory": f, "methods": ["predict", "predict_proba"],
                   "multivariate": multivariate, "cost": cost})
     add("tsf", lambda: TimeSeriesForestClassifier(n_estimators=4, random_state=0))
+    add("tsf10", lambda: TimeSeriesForestClassifier(n_estimators=10, random_state=0))
     add("tsf_jobs2", lambda: TimeSeriesForestClassifier(n_estimators=4, random_state=0, n_jobs=2))
     add("individual_boss", lambda: IndividualBOSS(window_size=6, word_length=4, random_state=0), cost="slow")
     add("boss_ensemble", lambda: BOSSEnsemble(max_ensemble_size=3, random_state=0), cost="slow")
@@ -130,7 +131,7 @@ def regressors():
              "factory": lambda: TimeSeriesForestRegressor(n_estimators=4, random_state=0), "cost": "fast"}]
 
 
-def make_panel(n_instances, n_columns, n_timepoints, seed, cells="series", labels=None):
+def make_panel(n_instances, n_columns, n_timepoints, seed, cells="series", labels=None, noise=0.5):
     """Deterministic small panel (nested DataFrame) + labels."""
     import pandas as pd
     rng = np.random.RandomState(seed)
@@ -142,7 +143,7 @@ def make_panel(n_instances, n_columns, n_timepoints, seed, cells="series", label
         for i in range(n_instances):
             k = i % len(labels)
             base = np.sin(np.arange(n_timepoints) * (0.4 + 0.5 * k)) * (2 + k) + 3 * k + 0.3 * c
-            v = base + rng.rand(n_timepoints) * 0.5
+            v = base + rng.rand(n_timepoints) * noise
             col.append(pd.Series(v) if cells == "series" else v)
         cols["dim_%d" % c] = col
     return pd.DataFrame(cols), y
